@@ -319,6 +319,8 @@ def families(tier='quick'):
     fams.append(('chain 5 - (-1) - 7 (id -1 in the middle)', [5, -1, 7], [(0, 5, -1, 1, 1), (1, -1, 7, 1, 0)]))
     # identifiers whose hashes collide although they differ (hash(-1) == hash(-2) in CPython; 2**61 - 1 and 0)
     fams.append(('chain (-1) - (-2) - 3: identifiers with equal hashes', [-1, -2, 3], [(0, -1, -2, 0, 1), (1, -2, 3, 0, 3)]))
+    # identifiers of mixed types whose texts collide (1 from a program, '1' from a file)
+    fams.append(("chain 1 - '1' - 2: an integer and a string identifier with the same text", [1, '1', 2], [(0, 1, '1', 0, 1), (1, '1', 2, 0, 3)]))
     fams.append(('triangle 0, 2**61 - 1, 7: identifiers with equal hashes', [0, 2 ** 61 - 1, 7], [(0, 0, 2 ** 61 - 1, 1, 1), (1, 2 ** 61 - 1, 7, 1, 1), (2, 0, 7, 0, 3)]))
     if tier == 'thorough':
         for (o1, o2, o3) in itertools.product(ORI, repeat=3):
